@@ -298,9 +298,114 @@ fn relabel_purpose<B: Backend>(opts: &Opts, rep: &mut Report) {
     }
 }
 
+/// A footer type whose decoding is deliberately not injective (case-insensitive, ignores padding
+/// spaces) and whose encoding is canonical: if unsealing authenticated the *re-encoded* footer
+/// instead of the bytes carried by the token, different footer bytes would be accepted.
+#[derive(Clone, Debug, PartialEq)]
+pub struct LossyFooter(pub String);
+
+impl paseto_core::encodings::Footer for LossyFooter {
+    fn encode(&self, mut w: impl paseto_core::encodings::WriteBytes) -> Result<(), Box<dyn std::error::Error + Send + Sync>> {
+        w.write(self.0.trim().to_lowercase().as_bytes());
+        Ok(())
+    }
+    fn decode(footer: &[u8]) -> Result<Self, Box<dyn std::error::Error + Send + Sync>> {
+        Ok(LossyFooter(String::from_utf8_lossy(footer).trim().to_lowercase()))
+    }
+}
+
+/// footers changed into different bytes that *decode to the same value* under a typed footer
+fn typed_footers<B: Backend>(opts: &Opts, rep: &mut Report) {
+    use paseto_core::validation::NoValidation;
+    use paseto_core::{EncryptedToken, SignedToken, UnencryptedToken, UnsignedToken};
+    use paseto_json::Json;
+    if opts.shard != 0 {
+        return;
+    }
+    let mut rng = Rng::derive(opts.seed, "c02.typed-footer", B::VER as u64);
+    let nv = NoValidation::<Raw>::dangerous_no_validation();
+    for p in [Purp::Local, Purp::Public] {
+        let kp = KeyPair::<B>::gen_for(p, &mut rng);
+        let msg = rng.bytes(20);
+        // (a) JSON footer: equivalent JSON texts
+        let fv = serde_json::json!({"kid": "key-1", "n": 1, "ctl": "a\u{1f}b"});
+        let sealed: Result<String, _> = match &kp {
+            KeyPair::Local(k) => UnencryptedToken::<B, Raw>::new(Raw(msg.clone())).with_footer(Json(fv.clone())).encrypt(k).map(|t| t.to_string()),
+            KeyPair::Public(sk, _) => UnsignedToken::<B, Raw>::new(Raw(msg.clone())).with_footer(Json(fv.clone())).sign(sk).map(|t| t.to_string()),
+        };
+        let Ok(tok) = sealed else { continue };
+        let (hdr, body, footer) = split_token(&tok);
+        let ftxt = String::from_utf8(footer.clone()).unwrap();
+        let variants: Vec<String> = vec![
+            format!(" {ftxt}"),
+            format!("{ftxt} "),
+            ftxt.replace(':', ": "),
+            ftxt.replace(',', ",\n"),
+            ftxt.replace("\\u001f", "\\u001F"),
+            ftxt.replace("key-1", "key\\u002d1"),
+            r#"{"n":1,"kid":"key-1","ctl":"a\u001fb"}"#.to_string(),
+            r#"{"kid":"key-1","n":1.0,"ctl":"a\u001fb"}"#.to_string(),
+            r#"{"kid":"key-1","n":1,"ctl":"a\u001fb","kid":"key-1"}"#.to_string(),
+        ];
+        let open_json = |t: &str| -> Result<Vec<u8>, paseto_core::PasetoError> {
+            match &kp {
+                KeyPair::Local(k) => t.parse::<EncryptedToken<B, Raw, Json<serde_json::Value>>>()?.decrypt(k, &nv).map(|u| u.claims.0),
+                KeyPair::Public(_, pk) => t.parse::<SignedToken<B, Raw, Json<serde_json::Value>>>()?.verify(pk, &nv).map(|u| u.claims.0),
+            }
+        };
+        if open_json(&tok).ok().as_deref() != Some(&msg[..]) {
+            rep.inconclusive(&format!("{} {}: typed-footer positive control failed", B::NAME, p.name()));
+            continue;
+        }
+        rep.count(&format!("{}.{}.positive-controls", B::NAME, p.name()));
+        for v in variants {
+            if v.as_bytes() == footer {
+                continue;
+            }
+            let t2 = join_token(&hdr, &body, v.as_bytes());
+            let class = "footer-equivalent-json-text";
+            match guard(|| open_json(&t2)) {
+                Ok(Err(e)) => rep.count(&format!("err.{}", err_kind(&e))),
+                Ok(Ok(_)) => rep.violation(&format!("C02|{}|{}|accepted:{class}", B::NAME, p.name()), json!({"token": t2, "original_footer": ftxt, "changed_footer": v})),
+                Err(pn) => rep.violation(&format!("C02|{}|{}|panic:{class}", B::NAME, p.name()), json!({"token": t2, "panic": pn})),
+            }
+            rep.case(&format!("{}.{}.{class}", B::NAME, p.name()), fnv(t2.as_bytes()), true);
+            rep.sample_class(&format!("{}.{}.{class}", B::NAME, p.name()), 1, || json!({"backend": B::NAME, "purpose": p.name(), "class": class, "original_footer": ftxt, "changed_footer": v, "result": "Err"}));
+        }
+        // (b) a footer type with lossy decoding
+        let sealed: Result<String, _> = match &kp {
+            KeyPair::Local(k) => UnencryptedToken::<B, Raw>::new(Raw(msg.clone())).with_footer(LossyFooter("kid-7".into())).encrypt(k).map(|t| t.to_string()),
+            KeyPair::Public(sk, _) => UnsignedToken::<B, Raw>::new(Raw(msg.clone())).with_footer(LossyFooter("kid-7".into())).sign(sk).map(|t| t.to_string()),
+        };
+        let Ok(tok) = sealed else { continue };
+        let (hdr, body, _) = split_token(&tok);
+        let open_lossy = |t: &str| -> Result<Vec<u8>, paseto_core::PasetoError> {
+            match &kp {
+                KeyPair::Local(k) => t.parse::<EncryptedToken<B, Raw, LossyFooter>>()?.decrypt(k, &nv).map(|u| u.claims.0),
+                KeyPair::Public(_, pk) => t.parse::<SignedToken<B, Raw, LossyFooter>>()?.verify(pk, &nv).map(|u| u.claims.0),
+            }
+        };
+        if open_lossy(&tok).ok().as_deref() != Some(&msg[..]) {
+            rep.inconclusive(&format!("{} {}: lossy-footer positive control failed", B::NAME, p.name()));
+            continue;
+        }
+        for v in ["KID-7", "kid-7 ", " kid-7", "Kid-7", "kid-7\n"] {
+            let t2 = join_token(&hdr, &body, v.as_bytes());
+            let class = "footer-equal-after-lossy-decode";
+            match guard(|| open_lossy(&t2)) {
+                Ok(Err(e)) => rep.count(&format!("err.{}", err_kind(&e))),
+                Ok(Ok(_)) => rep.violation(&format!("C02|{}|{}|accepted:{class}", B::NAME, p.name()), json!({"token": t2, "original_footer": "kid-7", "changed_footer": v})),
+                Err(pn) => rep.violation(&format!("C02|{}|{}|panic:{class}", B::NAME, p.name()), json!({"token": t2, "panic": pn})),
+            }
+            rep.case(&format!("{}.{}.{class}", B::NAME, p.name()), fnv(t2.as_bytes()), true);
+        }
+    }
+}
+
 pub fn run(opts: &Opts) {
     let mut rep = Report::new("C02");
     for_backends!(opts, backend, opts, &mut rep);
+    for_backends!(opts, typed_footers, opts, &mut rep);
     for_backends!(opts, relabel_purpose, opts, &mut rep);
     macro_rules! pairs {
         ($($a:ty => $b:ty),* $(,)?) => { $( relabel::<$a, $b>(opts, &mut rep); )* };
